@@ -23,10 +23,20 @@ TWO_Q = ["CNOT", "CZ", "ISWAP", "SWAP", "XX", "YY", "ZZ", "XY", "MS", "CPHASE"]
 
 
 @st.composite
-def cases(draw, tier):
-    n = draw(st.sampled_from([1, 2, 3, 3, 4, 4] if tier == "quick" else [1, 2, 3, 4, 4, 5, 5]))
-    det = [draw(st.sampled_from([0, 1, None, None, None])) for _ in range(n)]
-    free = [q for q in range(n) if det[q] is None]
+def cases(draw, tier, wide=False):
+    if wide:
+        n = draw(st.sampled_from([6, 7, 8, 9, 9, 10] if tier == "quick" else [7, 8, 9, 9, 10, 10, 11]))
+        det = [draw(st.sampled_from([0, 1, 1, 0, None])) for _ in range(n)]
+        if all(d is not None for d in det):
+            det[draw(st.integers(0, n - 1))] = None
+        free = [q for q in range(n) if det[q] is None][:4]
+        for q in range(n):
+            if det[q] is None and q not in free:
+                det[q] = 0
+    else:
+        n = draw(st.sampled_from([1, 2, 3, 3, 4, 4] if tier == "quick" else [1, 2, 3, 4, 4, 5, 5]))
+        det = [draw(st.sampled_from([0, 1, None, None, None])) for _ in range(n)]
+        free = [q for q in range(n) if det[q] is None]
     ops = [{"g": "X", "p": [], "mods": [], "q": [q]} for q in range(n) if det[q] == 1]
     for _ in range(draw(st.integers(0, 5))):
         if not free:
@@ -58,7 +68,7 @@ def cases(draw, tier):
     return {
         "n": n, "det": det, "ops": ops, "seed": draw(st.integers(0, 2 ** 31 - 1)),
         "ns_small": draw(st.integers(1, max(1, 2 ** n - 1))),
-        "ns_large": draw(st.integers(2 ** n + 1, 4 * 2 ** n + 3)),
+        "ns_large": draw(st.integers(2 ** n + 1, (4 * 2 ** n + 3) if not wide else 2 ** n + 40)),
         "zterms": zterms, "gterms": gterms,
     }
 
@@ -74,7 +84,10 @@ def oracle(spec):
 
     n, det = spec["n"], spec["det"]
     c = Circuit([cgen.build_gate(o)(*o["q"]) for o in spec["ops"]], n)
-    psi = cgen.ref_circuit_matrix({"ops": spec["ops"], "width": n}, n)[:, 0]
+    psi = np.zeros(2 ** n, dtype=complex)
+    psi[0] = 1
+    for o in spec["ops"]:
+        psi = ref.embed_apply(cgen.ref_gate_matrix(o), o["q"], n, psi)
     probs = np.abs(psi) ** 2
     sim = SymbolicSimulator(seed=spec["seed"])
     wf = must(lambda: sim.get_wavefunction(c), "get_wavefunction")
@@ -107,9 +120,14 @@ def oracle(spec):
     require(abs(e - ref_e) <= 1e-9 * scale, lambda: f"exact Z expectation {e} != reference {ref_e}")
     # general Pauli operator: quadratic form with qubit 0 leftmost
     gop = PauliSum([pgen.build_term(t) for t in spec["gterms"]])
-    G = pgen.canon_matrix(pgen.canon_sum({"terms": spec["gterms"]}), n)
+    Gpsi = np.zeros_like(psi)
+    for key, cf in pgen.canon_sum({"terms": spec["gterms"]}).items():
+        v = psi
+        for q, letter in key:
+            v = ref.embed_apply(ref.PAULI[letter], [q], n, v)
+        Gpsi = Gpsi + cf * v
     ge = must(lambda: get_expectation_value(gop, wf), "get_expectation_value")
-    gref = np.vdot(psi, G @ psi)
+    gref = np.vdot(psi, Gpsi)
     gscale = max(1.0, sum(abs(pgen.coef(t["c"])) for t in spec["gterms"]))
     require(abs(ge - gref) <= 1e-9 * gscale, lambda: f"expectation of {gop!r} is {ge}, quadratic form gives {gref}")
 
@@ -149,10 +167,14 @@ def oracle(spec):
         cl.append("three_qubit_gate")
         if any(len(o["q"]) == 3 and o["q"] != sorted(o["q"]) and o["q"] != sorted(o["q"], reverse=True) for o in spec["ops"]):
             cl.append("three_qubit_gate_cyclic_order")
+    if n >= 9:
+        cl.append("width>=9")
     return {"classes": cl, "nontrivial": nontrivial}
 
 
 SUBCHECKS = [
     SubCheck("views_agree", oracle, strategy=cases, examples=(250, 1200), shards=(6, 16), fork_timeout=30,
              rule=RULE),
+    SubCheck("wide_register", oracle, strategy=lambda t: cases(t, wide=True), examples=(15, 100), shards=(8, 16), fork_timeout=120,
+             rule="the same oracle on registers of 6..10 (11 thorough) qubits (at most 4 non-deterministic qubits, operators on any of the qubits, state-vector reference): numbering agrees on wide registers too"),
 ]
